@@ -333,6 +333,38 @@ theorem tvLLBytes_newLLBytes (vs : List Bytes) (hne : vs ≠ []) (h : noEmptyMem
     simp only [tvLLBytes, newLLBytes, hopts]
     simpa using this
 
+/-! ### the regenerated facts, as the twin reads them
+
+If the Go sources change one of these decision structures, the corresponding lemma stops
+checking and names what changed. -/
+
+/-- `handleLeafList` tests its lists in the order string, int, uint, bool, bytes, decimal, float
+    and builds the leaf-list of the list it tested. -/
+theorem fact_leafListChain :
+    leafListChain = some [(.strs, .strs), (.ints, .ints), (.uints, .uints), (.bools, .bools),
+      (.bytess, .bytess), (.digits, .digits), (.floats, .floats)] := by decide
+
+/-- without type options an int, a uint and a leaf-list are given width 32. -/
+theorem fact_defaultWidth :
+    defaultWidth "intWidth" = 32 ∧ defaultWidth "uintWidth" = 32 ∧ defaultWidth "width" = 32 := by decide
+
+/-- `handleLeafValue` writes an int, a uint and their leaf-lists as strings when `width > 32`. -/
+theorem fact_wideCfg :
+    wideCfg "INT" = some (.gt, 32) ∧ wideCfg "UINT" = some (.gt, 32) ∧
+    wideCfg "LEAFLIST_INT" = some (.gt, 32) ∧ wideCfg "LEAFLIST_UINT" = some (.gt, 32) := by decide
+
+theorem isWide_int (w : Int) : isWide "INT" w = decide (w > 32) := by
+  simp [isWide, fact_wideCfg.1, CmpOp.eval]
+
+theorem isWide_uint (w : Int) : isWide "UINT" w = decide (w > 32) := by
+  simp [isWide, fact_wideCfg.2.1, CmpOp.eval]
+
+theorem isWide_llint (w : Int) : isWide "LEAFLIST_INT" w = decide (w > 32) := by
+  simp [isWide, fact_wideCfg.2.2.1, CmpOp.eval]
+
+theorem isWide_lluint (w : Int) : isWide "LEAFLIST_UINT" w = decide (w > 32) := by
+  simp [isWide, fact_wideCfg.2.2.2, CmpOp.eval]
+
 /-! ### handleLeafList on homogeneous lists -/
 
 /-- a string member as the client sent it: `StringVal` or `AsciiVal`. -/
@@ -399,37 +431,48 @@ def llWidth (typeOpt0 : Nat) : Int := if typeOpt0 > 0 then (typeOpt0 : Int) else
 theorem handleLeafList_strs (xs : List (Bool × Bytes)) (t0 : Nat) (hne : xs ≠ []) :
     handleLeafList (xs.map strScalar) t0 = .ok (newLLString (xs.map (·.2))) := by
   have h : (xs.map (·.2)).length > 0 := by simpa using length_pos_of_ne_nil xs hne
-  simp only [handleLeafList, llCollect_strs, List.nil_append, h, if_true]
+  simp [handleLeafList, llCollect_strs, fact_leafListChain, llChain, llNonEmpty, llBuild, hne]
 
 theorem handleLeafList_ints (xs : List Int) (t0 : Nat) (hne : xs ≠ []) :
     handleLeafList (xs.map .int) t0 = .ok (newLLInt xs (llWidth t0)) := by
   have h := length_pos_of_ne_nil xs hne
-  simp [handleLeafList, llCollect_ints, h, llWidth]
+  simp [handleLeafList, llCollect_ints, fact_leafListChain, llChain, llNonEmpty, llBuild, fact_defaultWidth, h, llWidth]
 
 theorem handleLeafList_uints (xs : List Nat) (t0 : Nat) (hne : xs ≠ []) :
     handleLeafList (xs.map .uint) t0 = .ok (newLLUint xs (llWidth t0)) := by
   have h := length_pos_of_ne_nil xs hne
-  simp [handleLeafList, llCollect_uints, h, llWidth]
+  simp [handleLeafList, llCollect_uints, fact_leafListChain, llChain, llNonEmpty, llBuild, fact_defaultWidth, h, llWidth]
 
 theorem handleLeafList_bools (xs : List Bool) (t0 : Nat) (hne : xs ≠ []) :
     handleLeafList (xs.map .bool) t0 = .ok (newLLBool xs) := by
   have h := length_pos_of_ne_nil xs hne
-  simp [handleLeafList, llCollect_bools, h]
+  simp [handleLeafList, llCollect_bools, fact_leafListChain, llChain, llNonEmpty, llBuild, h]
 
 theorem handleLeafList_bytess (xs : List Bytes) (t0 : Nat) (hne : xs ≠ []) :
     handleLeafList (xs.map .bytes) t0 = .ok (newLLBytes xs) := by
   have h := length_pos_of_ne_nil xs hne
-  simp [handleLeafList, llCollect_bytess, h]
+  simp [handleLeafList, llCollect_bytess, fact_leafListChain, llChain, llNonEmpty, llBuild, h]
 
 theorem handleLeafList_decs (xs : List Int) (p t0 : Nat) (hne : xs ≠ []) :
     handleLeafList (xs.map fun d => .dec d p) t0 = .ok (newLLDecimal xs (p % 256)) := by
   have h := length_pos_of_ne_nil xs hne
-  simp [handleLeafList, llCollect_decs _ xs p hne, h]
+  simp [handleLeafList, llCollect_decs _ xs p hne, fact_leafListChain, llChain, llNonEmpty, llBuild, h]
 
 theorem handleLeafList_floats (xs : List Nat) (t0 : Nat) (hne : xs ≠ []) :
     handleLeafList (xs.map .float) t0 = .ok (newLLFloat xs) := by
   have h := length_pos_of_ne_nil xs hne
-  simp [handleLeafList, llCollect_floats, h]
+  simp [handleLeafList, llCollect_floats, fact_leafListChain, llChain, llNonEmpty, llBuild, h]
+
+theorem widthOf_of_widthOK (d : String) (hd : defaultWidth d = 32) (opts : List Nat) (hw : widthOK opts = true) :
+    wrapI32 (widthOf d opts) = (modelWidth opts : Int) := by
+  cases opts with
+  | nil => simp only [widthOf, modelWidth, List.headD_nil, hd]; exact wrapI32_of_range _ (by omega) (by omega)
+  | cons w r =>
+    simp only [widthOK, Bool.or_eq_true, decide_eq_true_eq] at hw
+    simp only [widthOf, modelWidth, List.headD_cons]
+    have h1 : wrapI64 (w : Int) = (w : Int) := by
+      apply wrapI64_of_isInt64; rw [isInt64_iff]; omega
+    rw [h1]; exact wrapI32_of_range _ (by omega) (by omega)
 
 theorem llWidth_of_widthOK (opts : List Nat) (h : widthOK opts = true) :
     wrapI32 (llWidth (opts.headD 0 % 256)) = (modelWidth opts : Int) := by
